@@ -192,7 +192,15 @@ func CallMethod(obj interface{}, methodName string, args ...interface{}) (interf
 
 		if arg == nil {
 			switch paramType.Kind() {
-			case reflect.Interface, reflect.Ptr, reflect.Map, reflect.Slice, reflect.Func, reflect.Chan:
+			case reflect.Interface:
+				// Only the empty interface takes nil as a value. A nil Context,
+				// Reader, ... is used by the callee at once, and the panic can
+				// come while a library holds one of its locks.
+				if paramType.NumMethod() == 0 {
+					methodArgs[i] = reflect.Zero(paramType)
+					continue
+				}
+			case reflect.Ptr, reflect.Map, reflect.Slice, reflect.Func, reflect.Chan:
 				methodArgs[i] = reflect.Zero(paramType)
 				continue
 			}
